@@ -107,6 +107,21 @@ CHECKS["C19"] = (
     "samples, with drop-outs, gaps, shifts, duplicates and unsorted input.",
     "Trusts mpmath and the derived kernel bound; docstrings are the contract (ties/duplicate times accept "
     "any member of the acceptance set; base= alignment checked as documented).", "3/C19")
+CHECKS["C02"] = (
+    "Hypothesis-generated modal systems (rb/el/rf, viscous + hysteretic damping, complex mass) in diagonal, "
+    "non-proportional and physically coupled forms x frequency vectors incl. 0 Hz and near-resonance points "
+    "x every ordered incrb subset x rf_disp_only; reference = own dense complex solve per frequency; "
+    "differential SolveUnc vs FreqDirect; solvepsd vs own sum/trapezoid",
+    "Generated-input search: d, v, a of SolveUnc.fsolve and FreqDirect.fsolve are compared per frequency and "
+    "row group (rigid-body, elastic, residual-flexibility) with an independent dense solution of the "
+    "dynamic-stiffness equation, the rigid-body relations a = F/m, v = a/(iW), d = -a/W^2 and the static rf "
+    "solution, with zeroing exactly as incrb / rf_disp_only say; the equation residual and v = iW d, "
+    "a = -W^2 d are checked on the returned arrays; solvepsd is recomputed from reference FRFs through random "
+    "DRM quadruples with an own trapezoid rule.",
+    "Tolerance 2000*eps*cond(H(W)) (x eigenvector condition for the coupled path, x cond(Phi)^2 and the "
+    "dynamic amplification for physical forms); undamped resonances kept 1e-3 away; exactly critical damping "
+    "excluded where the complex-eigen path is used; known finding F3 (damping of rb-classified modes "
+    "ignored) excluded by signature.", "3/C02")
 
 NOT_APPLICABLE = {
 }
